@@ -57,7 +57,7 @@ func idName(id tls.ClientHelloID) string { return id.Client + "_" + id.Version }
 
 // padInfo: what the runner knows about a padding extension before the build
 type padInfo struct {
-	pol  string // "none" | "boring" | "always" | "fromraw" | "unknown"
+	pol  string // "none" | "boring" | "always" | "fromraw" | "added" | "unknown"
 	n    int    // AlwaysPadToLen argument when pol == "always"
 	plen int
 	will bool
@@ -224,6 +224,11 @@ func items(uc *tls.UConn, pads map[*tls.UtlsPaddingExtension]padInfo, haveRaw bo
 			if !haveRaw {
 				obs = 0
 			}
+			if pi.pol == "added" {
+				out = append(out, fmt.Sprintf("CAdded %d", obs))
+				total += obs
+				continue
+			}
 			out = append(out, fmt.Sprintf("CPad %s %d %s %d", coqPol(pi), pi.plen, vh.Bool(pi.will), obs))
 			total += obs
 			continue
@@ -276,6 +281,12 @@ func intlist[T uint8 | uint16](xs []T) string {
 // emitCase records the correspondence case for one built UConn. fromRaw > 0:
 // the spec came from FromRaw on a capture of that many bytes.
 func emitCase(c *vh.Ctx, kind, key string, uc *tls.UConn, berr error, pads map[*tls.UtlsPaddingExtension]padInfo, fromRaw int, nontrivial bool) {
+	emitCaseF(c, kind, key, uc, berr, pads, fromRaw, false, nontrivial)
+}
+
+// emitCaseF: addpad says the spec went through ClientHelloSpec.AlwaysAddPadding after FromRaw
+// (a padding extension it added is marked pol "added" in pads).
+func emitCaseF(c *vh.Ctx, kind, key string, uc *tls.UConn, berr error, pads map[*tls.UtlsPaddingExtension]padInfo, fromRaw int, addpad, nontrivial bool) {
 	h := uc.HandshakeState.Hello
 	if h == nil {
 		c.Count("skipped-nohello")
@@ -312,7 +323,7 @@ func emitCase(c *vh.Ctx, kind, key string, uc *tls.UConn, berr error, pads map[*
 	if fromRaw > 0 {
 		fr = fmt.Sprintf("(Some %d%%uint63)", fromRaw)
 	}
-	term := fmt.Sprintf("CM %s %d %d %s %s [%s] %s %s", fr, h.Vers, len(h.SessionId), intlist(h.CipherSuites),
+	term := fmt.Sprintf("CM %s %s %d %d %s %s [%s] %s %s", fr, vh.Bool(addpad), h.Vers, len(h.SessionId), intlist(h.CipherSuites),
 		intlist(h.CompressionMethods), strings.Join(its, "; "), vh.Bool(haveRaw), words(data))
 	c.Case(kind, term, key, nontrivial, map[string]any{"kind": kind, "key": key, "len": len(h.Raw), "err": fmt.Sprint(berr)})
 }
@@ -438,4 +449,7 @@ func run(c *vh.Ctx) {
 	runCustom(c)
 	// 5. fingerprinted padded captures
 	runFingerprint(c, ids)
+	// 6. ... under every Fingerprinter flag combination, captures padded to other lengths than 512,
+	//    with 0/1/many-byte padding bodies, and captures without a padding extension
+	runFingerprintFlags(c, ids)
 }
